@@ -25,6 +25,9 @@ type Col struct {
 	Auto    bool   `json:"auto"`
 	HasGen  bool   `json:"hasgen"`
 	Gen     *Expr  `json:"gen"`
+	// Virtual: the generated column is VIRTUAL instead of STORED.  The specification does not read the
+	// field: either kind of generated column always shows its expression over the row's base columns.
+	Virtual bool `json:"virtual,omitempty"`
 }
 
 // KeyPart is one column of an index; Plen > 0 is a prefix length.
@@ -78,6 +81,18 @@ type Stmt struct {
 	Name   string       `json:"name"`
 	Unique bool         `json:"unique"`
 	Parts  []KeyPart    `json:"parts"`
+	// Sel: INSERT .. SELECT (the VALUES rows are then empty): the rows come from a query over one table
+	Sel *Select `json:"sel,omitempty"`
+}
+
+// Select is the source of INSERT .. SELECT: Exprs (one per target column, over a row of table From)
+// of the rows Where / Order / Limit designate, in that order.
+type Select struct {
+	From  string       `json:"from"`
+	Exprs []*Expr      `json:"exprs"`
+	Where *Expr        `json:"where"`
+	Order []sqlast.Ord `json:"order"`
+	Limit int          `json:"limit"`
 }
 
 // Fix fills the nil slices / pointers so that the JSON carries every field.
@@ -145,7 +160,7 @@ func (t *Table) Fix() *Table {
 	return t
 }
 
-func IntCol() Col           { return Col{Ty: "i", Coll: "none"} }
+func IntCol() Col            { return Col{Ty: "i", Coll: "none"} }
 func StrCol(coll string) Col { return Col{Ty: "s", Coll: coll} }
 
 // CollTag is the collation tag a reference to the column carries in expressions.
@@ -176,6 +191,9 @@ func Tags(s *Stmt, t *Table) []string {
 		add("insert:" + s.Mode)
 		if len(s.Rows) > 1 {
 			add("multirow")
+		}
+		if s.Sel != nil {
+			add("select")
 		}
 		if t != nil && len(t.PK) > 1 && printCollide(s, t) {
 			add("printcollide")
@@ -265,13 +283,31 @@ func Tags(s *Stmt, t *Table) []string {
 		if t.AutoCol() > 0 {
 			add("auto")
 		}
-		gen, chk, def := false, len(t.Checks) > 0, false
+		gen, vgen, chk, def := false, false, len(t.Checks) > 0, false
 		for _, c := range t.Cols {
 			gen = gen || c.HasGen
+			vgen = vgen || (c.HasGen && c.Virtual)
 			def = def || c.HasDef
 		}
 		if gen {
 			add("gen")
+		}
+		if vgen {
+			add("vgen")
+		}
+		if chk {
+			genCols := map[int]bool{}
+			for i, c := range t.Cols {
+				if c.HasGen {
+					genCols[i+1] = true
+				}
+			}
+			for _, c := range t.Checks {
+				if RefersTo(c, genCols) {
+					add("gencheck")
+					break
+				}
+			}
 		}
 		if chk {
 			add("check")
